@@ -126,6 +126,9 @@ func Families() []*spec.Grammar {
 		"X: A B X | c; A: ; B: ",
 		"S: S A | ; A: | a",
 		"A: A A | ",
+		// rings in the includes relation entered from several contexts
+		"S: o1 A c1 | o2 B c2 | o3 C c3 | o4 D c4; A: a B; B: b C; C: c D; D: d A | e",
+		"S: o1 A c1 | o2 B c2 | o3 C c3; A: a B N; B: b C N; C: c A | e; N: | n",
 		// cyclic
 		"S: A; A: B; B: A | x",
 		"U: U | u",
@@ -743,6 +746,147 @@ func Contexts(r *rand.Rand) *spec.Grammar {
 			}
 		}
 		g.Rules = append(a, b...)
+	}
+	g.DefaultActs()
+	return g
+}
+
+// ---------------------------------------------------------------- G-tiny
+
+// tinyRules lists every rule over nonterminals {S, A} and terminals {a, b}
+// with a right-hand side of length <= 2 (42 rules).
+func tinyRules() []spec.Rule {
+	syms := []spec.Sym{{I: 0}, {I: 1}, {T: true, I: 0}, {T: true, I: 1}}
+	var res []spec.Rule
+	for lhs := 0; lhs < 2; lhs++ {
+		res = append(res, spec.Rule{Lhs: lhs, Prec: -1})
+		for _, x := range syms {
+			res = append(res, spec.Rule{Lhs: lhs, Rhs: []spec.Sym{x}, Prec: -1})
+		}
+		for _, x := range syms {
+			for _, y := range syms {
+				res = append(res, spec.Rule{Lhs: lhs, Rhs: []spec.Sym{x, y}, Prec: -1})
+			}
+		}
+	}
+	return res
+}
+
+var tinyRuleList = tinyRules()
+
+func binom(n, k int) int {
+	if k < 0 || k > n {
+		return 0
+	}
+	r := 1
+	for i := 0; i < k; i++ {
+		r = r * (n - i) / (i + 1)
+	}
+	return r
+}
+
+// TinyCount is the number of grammars in G-tiny: all sets of 1..4 of the 42 rules.
+func TinyCount() int {
+	n := len(tinyRuleList)
+	return binom(n, 1) + binom(n, 2) + binom(n, 3) + binom(n, 4)
+}
+
+// Tiny returns the idx-th grammar of G-tiny (rule sets in lexicographic order,
+// start symbol S). The grammar may be unusable.
+func Tiny(idx int) *spec.Grammar {
+	n := len(tinyRuleList)
+	k := 1
+	for idx >= binom(n, k) {
+		idx -= binom(n, k)
+		k++
+	}
+	// unrank the idx-th k-combination of n in lexicographic order
+	var comb []int
+	x := 0
+	for j := 0; j < k; j++ {
+		for {
+			c := binom(n-x-1, k-j-1)
+			if idx < c {
+				break
+			}
+			idx -= c
+			x++
+		}
+		comb = append(comb, x)
+		x++
+	}
+	g := &spec.Grammar{
+		Tokens: []spec.Token{{Name: "Ta", Decl: "token", Tag: "s"}, {Name: "Tb", Decl: "token", Tag: "s"}},
+		NTs:    []spec.NT{{Name: "S", Tag: "s"}, {Name: "A", Tag: "s"}},
+	}
+	usesA := false
+	for _, ci := range comb {
+		ru := tinyRuleList[ci]
+		g.Rules = append(g.Rules, spec.Rule{Lhs: ru.Lhs, Rhs: append([]spec.Sym{}, ru.Rhs...), Prec: -1})
+		if ru.Lhs == 1 {
+			usesA = true
+		}
+		for _, s := range ru.Rhs {
+			if !s.T && s.I == 1 {
+				usesA = true
+			}
+		}
+	}
+	if !usesA {
+		g.NTs = g.NTs[:1]
+	}
+	g.DefaultActs()
+	return g
+}
+
+// Rings produces grammars whose nonterminals refer to each other in a cycle
+// (as expr -> term -> factor -> '(' expr ')' does), entered from several
+// contexts with different terminators: the includes relation then has a
+// strongly connected component with several members, each with its own
+// contribution from outside.
+func Rings(r *rand.Rand) *spec.Grammar {
+	g := &spec.Grammar{}
+	tok := func(name string) spec.Sym {
+		g.Tokens = append(g.Tokens, spec.Token{Name: name, Decl: "token", Tag: "s"})
+		return spec.Sym{T: true, I: len(g.Tokens) - 1}
+	}
+	g.NTs = append(g.NTs, spec.NT{Name: "S", Tag: "s"})
+	k := 2 + r.Intn(4)
+	ring := make([]int, k)
+	for i := range ring {
+		g.NTs = append(g.NTs, spec.NT{Name: fmt.Sprintf("R%d", i), Tag: "s"})
+		ring[i] = len(g.NTs) - 1
+	}
+	// contexts: open Ri close, for a random subset (at least 2) of ring members
+	nctx := 0
+	for i := 0; i < k; i++ {
+		if r.Intn(3) != 0 || nctx < 2 && i >= k-2 {
+			open, cl := tok(fmt.Sprintf("To%d", i)), tok(fmt.Sprintf("Tc%d", i))
+			g.Rules = append(g.Rules, spec.Rule{Lhs: 0, Rhs: []spec.Sym{open, {I: ring[i]}, cl}, Prec: -1})
+			nctx++
+		}
+	}
+	for i := 0; i < k; i++ {
+		next := spec.Sym{I: ring[(i+1)%k]}
+		step := tok(fmt.Sprintf("Ts%d", i))
+		switch r.Intn(3) {
+		case 0:
+			g.Rules = append(g.Rules, spec.Rule{Lhs: ring[i], Rhs: []spec.Sym{step, next}, Prec: -1})
+		case 1:
+			g.Rules = append(g.Rules, spec.Rule{Lhs: ring[i], Rhs: []spec.Sym{step, step, next}, Prec: -1})
+		default:
+			// nullable tail after the ring reference
+			g.NTs = append(g.NTs, spec.NT{Name: fmt.Sprintf("O%d", i), Tag: "s"})
+			opt := len(g.NTs) - 1
+			g.Rules = append(g.Rules, spec.Rule{Lhs: ring[i], Rhs: []spec.Sym{step, next, {I: opt}}, Prec: -1})
+			g.Rules = append(g.Rules, spec.Rule{Lhs: opt, Prec: -1})
+			if r.Intn(2) == 0 {
+				g.Rules = append(g.Rules, spec.Rule{Lhs: opt, Rhs: []spec.Sym{tok(fmt.Sprintf("Tp%d", i))}, Prec: -1})
+			}
+		}
+		if i == k-1 || r.Intn(3) == 0 {
+			g.Rules = append(g.Rules, spec.Rule{Lhs: ring[i], Rhs: []spec.Sym{tok(fmt.Sprintf("Te%d", i))}, Prec: -1})
+		}
 	}
 	g.DefaultActs()
 	return g
